@@ -219,13 +219,13 @@ def trailing_family(mode, version, e):
     complete normally / return / exit the program (the compiler must close each routine exactly
     where control can leave it), followed in the layout by another routine"""
     out = []
-    arms_n = {"tag": lambda k: e.tag(70 + k), "ret": lambda k: ("Return",), "rej": lambda k: ("Reject",)}
-    arms_u = {"val": lambda k: ("Int", 10 + k), "ret": lambda k: ("Return", ("Int", 20 + k)), "rej": lambda k: ("Reject",)}
+    arms_n = {"tag": lambda k: e.tag(70 + k), "ret": lambda k: ("Return",), "rej": lambda k: ("Reject",), "err": lambda k: ("Err",)}
+    arms_u = {"val": lambda k: ("Int", 10 + k), "ret": lambda k: ("Return", ("Int", 20 + k)), "rej": lambda k: ("Reject",), "err": lambda k: ("Err",)}
     g = {"params": [], "ret": "n", "body": e.tag(79)}
     for kind, arms in (("n", arms_n), ("u", arms_u)):
-        names = sorted(arms)
+        names = sorted(a for a in arms if a != "err")
         for n in (2, 3):
-            for combo in itertools.product(names, repeat=n):
+            for combo in itertools.product(names + (["err"] if n == 2 else []), repeat=n):
                 if kind == "u" and all(c != "val" for c in combo) and False:
                     continue
                 conds = [e.u(i) for i in range(n)]
@@ -236,6 +236,9 @@ def trailing_family(mode, version, e):
                     shapes["ifelse"] = ("If", conds[0], built[0], built[1])
                     if kind == "n":
                         shapes["ifonly"] = ("If", conds[0], built[0])
+                if kind == "n":
+                    # an If / ElseIf chain WITHOUT a final Else: control can always leave it normally
+                    shapes["ifchain-noelse"] = ("IfChain", tuple((conds[i], built[i]) for i in range(n)), None)
                 for sname, body in shapes.items():
                     f = {"params": [], "ret": kind, "body": ("Seq", e.tag(60), body)}
                     if kind == "n":
@@ -243,7 +246,26 @@ def trailing_family(mode, version, e):
                     else:
                         main = ("Seq", ("Call", "g"), ("Return", ("Bin", "Add", ("Call", "f"), ("Int", 1))))
                     out.append(("sub:trail:%s:%s:%s" % (kind, sname, "-".join(combo)), prog(mode, main, {}, {"f": f, "g": g}), {}))
+                    if kind == "u":
+                        # the same construct as the LAST expression of the main routine (followed in the layout by routine g);
+                        # arms that complete normally deliver the program's result
+                        mainp = ("Seq", ("Call", "g"), e.tag(62), body)
+                        out.append(("sub:trail-main:%s:%s" % (sname, "-".join(combo)), prog(mode, mainp, {}, {"g": g}), {}))
+                    elif "tag" not in combo:
+                        # none-typed arms that all leave the program: legal as the end of main only if control cannot fall out of it
+                        mainp = ("Seq", ("Call", "g"), e.tag(62), tuple(body[:1]) + tuple(body[1:]))
+                        mainp = _replace_bare_returns(mainp)
+                        out.append(("sub:trail-main:%s:%s" % (sname, "-".join(combo)), prog(mode, mainp, {}, {"g": g}), {}))
     return out
+
+
+def _replace_bare_returns(e):
+    """Return() without a value is not allowed in the main routine: use Approve()"""
+    if isinstance(e, tuple):
+        if e == ("Return",):
+            return ("Approve",)
+        return tuple(_replace_bare_returns(c) for c in e)
+    return e
 
 
 def sub_options(version: int, thorough: bool):
